@@ -31,11 +31,11 @@ add("C05", EX, "runtime monitor: round trip and grammar strings compared per cel
 add("C06", EX, "runtime monitor: Python list operations on observed cell lists as postcondition oracle",
     "Every run layout up to the bound x every slice bound/index in [-len-2, len+2]+None, all layout pairs for +, "
     "repeat counts, joins (also over a FmtStr as the iterable), iteration; results' cells compared with list operations "
-    "on operand cells. One recorded finding: join parses a plain str that holds an escape sequence as markup.",
+    "on operand cells. A plain str that holds an escape sequence is text like any other (judged on text and length).",
     TB + "Cells observed through str()+SGR interpreter (C01).")
 add("C09", EX, "runtime monitor: list splice on cell lists as postcondition oracle",
     "Every layout x replacement family x every 0<=start<=end<=len+2 (and end omitted), append, random larger cases; "
-    "operands re-observed afterwards. One recorded finding: splice/append parse a plain str that holds an escape sequence as markup.",
+    "operands re-observed afterwards. A plain str that holds an escape sequence is text like any other (judged on text and length).",
     TB + "Cells observed through str()+SGR interpreter (C01).")
 add("C10", EX, "runtime monitor: column-expanded cell model with widths from the pure-Python wcwidth package",
     "Every string up to length 3 (5 thorough) over narrow/wide/combining characters x run partitions x every column "
